@@ -32,7 +32,7 @@ from datetime import date, datetime, timedelta
 from whoosh.compat import iteritems
 
 
-class TimeError(Exception):
+class TimeError(ValueError):
     pass
 
 
